@@ -40,6 +40,7 @@ type check struct {
 	batch       int      // programs per TLC batch
 	sim         *simSpec // (G): additional programs = behaviours of a TLA+ state machine simulated by TLC
 	race        bool     // also run the programs in a -race, decimal_pure_go build: any race report is a violation
+	proofs      []string // TLAPS proof modules (spec/proofs) checked in every run
 	builds      []string // build-tag sets under which the programs run; the event logs must be identical (default: the default build only)
 	rule        string
 	assumptions []string
@@ -175,9 +176,15 @@ var checks = map[string]*check{
 		req:         []string{"TextParse:fmt:e", "TextParse:fmt:g", "TextParse:fmt:p", "TextParse:fmt:b", "TextParse:fmt:f", "TextParse:text:e", "TextParse:inf", "TextParse:zero"},
 	},
 	"C12": {
-		id: "C12", models: []model{}, trace: "Trace_Core", batch: 4,
-		gen:         func(g *gen.G, thor bool) []gen.Program { return gen.Parse(g, n(thor, 2500, 60000)) },
-		rule:        "Parse/SetString/UnmarshalText/json.Unmarshal/ParseDecimal/Scan of structured literals (up to thousands of digits, radix point anywhere, leading/trailing zeros, delicate digits after the precision, decimal exponents at and beyond the int32/int64 limits, binary exponents incl. unrepresentable ones), the Inf spellings and near misses, a corpus of separator/prefix edge cases, mutated literals (insert/delete/replace one or two bytes) and random strings over the grammar's alphabet, bases {0,2,8,10,16}, six modes, precision 0 and > 0; math/big's Float.Parse runs on the same strings as a second implementation of the recogniser",
+		id: "C12", trace: "Trace_Core", batch: 4,
+		models: []model{{mod: "MC_Parse", quick: map[string]string{"LMax": "5"}, thorough: map[string]string{"LMax": "6"}}},
+		gen: func(g *gen.G, thor bool) []gen.Program {
+			if thor {
+				return append(gen.Parse(g, 60000), gen.ParseAll(g, 5, 3)...)
+			}
+			return append(gen.Parse(g, 2500), gen.ParseAll(g, 4, 7)...)
+		},
+		rule:        "EVERY string of up to 3 characters (and every 7th of length 4; thorough: every 3rd up to length 5) over {0 1 9 a _ . e p x b - +} with base argument 0 and one of 2/8/10/16 (small-scope exhaustive conformance; MC_Parse compares the recogniser with the documented EBNF on every string up to length 5 (6) at design level); Parse/SetString/UnmarshalText/json.Unmarshal/ParseDecimal/Scan of structured literals (up to thousands of digits, radix point anywhere, leading/trailing zeros, delicate digits after the precision, decimal exponents at and beyond the int32/int64 limits, binary exponents incl. unrepresentable ones), the Inf spellings and near misses, a corpus of separator/prefix edge cases, mutated literals (insert/delete/replace one or two bytes) and random strings over the grammar's alphabet, bases {0,2,8,10,16}, six modes, precision 0 and > 0; math/big's Float.Parse runs on the same strings as a second implementation of the recogniser",
 		assumptions: append(append([]string{}, commonAssumptions...), "binary exponents between 20000 and 10^10 in magnitude are left free (DESIGN 3.6)"),
 		req:         []string{"Parse:accepted", "Parse:rejected", "Parse:base10", "Parse:base16", "Parse:base2", "Parse:base8", "Parse:binary", "Parse:decimal", "Parse:inf", "Parse:tie-up", "Parse:tie-down", "SetString:accepted", "UnmarshalText:rejected", "Scan:accepted"},
 	},
@@ -218,6 +225,7 @@ var checks = map[string]*check{
 	},
 	"C18": {
 		id: "C18", trace: "Trace_Core", batch: 2,
+		proofs: []string{"DecPoolAbs_proofs"},
 		models: []model{{mod: "MC_Pool", quick: map[string]string{"NG": "2"}, thorough: map[string]string{"NG": "3"}},
 			{mod: "MC_Pool", quick: map[string]string{"NG": "2", "EarlyPut": "TRUE"}, expectViolation: "NoMisuse"}},
 		gen:         func(g *gen.G, thor bool) []gen.Program { return gen.Par(g, n(thor, 16, 400)) },
